@@ -173,6 +173,16 @@ CHECKS.update({
     },
 })
 
+CHECKS.update({
+    "C16": {
+        "engine": "SCHED", "category": "model_checking",
+        "technique": "explicit-state BFS over cache-directory histories (with merging) plus stateless exploration of all line-level interleavings of two callers up to a preemption bound, all crash points and all byte prefixes, on the real function, in three hash-seed modes",
+        "text": "perform_cached_doit runs on real temporary directories; operations call / pre-seed (empty, torn, unloadable, colliding partner's pickle) / crash at every scheduling point; two callers under a baton scheduler (sys.settrace line events) with <= 1 (2) preemptions on empty, warm and torn directories; every byte prefix of every file a writer produces as a starting directory; every return value must equal doit() and nothing may raise",
+        "note": "threads under a baton stand in for processes; scheduling points are source lines of the two cache modules; bounds: depth 3 (4), 2 callers, 2 preemptions",
+        "design": "3/C16",
+    },
+})
+
 NOT_YET = "check not implemented yet at this commit (planned, see DESIGN.md section 7)"
 
 
